@@ -13,10 +13,12 @@ MANIFEST = dict(
          'method and __init__, real calls on a recording subclass, naming helpers, against the compiled model; plus a direct '
          'oracle computed from the pristine IR that judges the property on the real artefacts.',
     note='The theorems carry explicit hypotheses that the real generator does not establish (each has a reachable '
-         'counterexample; the eleven signature families they produce on the real code are listed in KNOWN_FINDINGS.jsonl (ids c14-*), '
-         'each re-confirmed first on every run by a hand seed harness/specs/c14_<set>_*.stone): parameters distinct and no Python keywords, module names '
-         'used by the body imported and not hidden by a parameter, no field type that is an alias of a nullable type, namespace '
-         'prefixes not prefixes of each other, no string default that pprint wraps. Trusted: Lean kernel, translator, generators, CPython (call binding and scoping are '
+         'counterexample; the signature families they produce on the real code are listed in KNOWN_FINDINGS.jsonl (ids c14-*), '
+         'each re-confirmed first on every run by a hand seed harness/specs/c14_<set>_*.stone): parameters distinct and no Python keywords, no module name '
+         'used by the body hidden by a parameter, no field type that is an alias of a nullable type, namespace '
+         'prefixes not prefixes of each other. Three former hypotheses are gone with repairs of the generator (string defaults '
+         'that pprint wraps, tag defaults declared through an alias of another namespace, route namespaces without data types: '
+         'regression examples in Props/C14.lean, seeds c14_blankdefault / c14_foreignalias* / c14_noimport judged like any other input). Trusted: Lean kernel, translator, generators, CPython (call binding and scoping are '
          'modelled and compared on every run), python_types for everything but the parameter order of __init__ and the route '
          'object names. Docstrings, -w/--auth-type and the _to_file twin of download routes are not judged (the twin is compared '
          'with the model only).',
